@@ -539,8 +539,8 @@ def run(ctx: Any) -> None:
 
     quick = ctx.tier == "quick"
     rng = ctx.rng
-    nbases = 14 if quick else 60
-    max_edits = 14 if quick else 60
+    nbases = 14 if quick else 40
+    max_edits = 14 if quick else 40
     bases = [gen_service(rng, i) for i in range(nbases)]
     # make sure the extremes are present: no method, six methods, one stream with header, one unary
     bases[0] = gen_service(rng, 0, nmethods=0)
